@@ -131,6 +131,11 @@ pub enum RealKind {
     Rastrigin,
     /// first coordinate is a tag; value is that coordinate (used by operator-level checks)
     Tag,
+    /// a value in [0, 1) derived from the exact bit patterns of all coordinates: any change of the solution, however
+    /// small, changes the objective value (used to detect objective values that belong to another solution)
+    Fingerprint,
+    /// sphere, but the half of the domain where the first coordinate is above the centre is infeasible (objective +inf)
+    Infeasible,
 }
 
 #[derive(Clone)]
@@ -176,6 +181,22 @@ impl RealP {
                 .map(|v| v * v - 10.0 * (2.0 * std::f64::consts::PI * v).cos() + 10.0)
                 .sum::<f64>(),
             RealKind::Tag => x.first().copied().unwrap_or(0.0),
+            RealKind::Fingerprint => {
+                let mut h = 0xcbf29ce484222325u64;
+                for v in x {
+                    h = (h ^ v.to_bits()).wrapping_mul(0x100000001b3);
+                    h ^= h >> 29;
+                }
+                (h >> 11) as f64 / (1u64 << 53) as f64
+            }
+            RealKind::Infeasible => {
+                let mid = self.domain.first().map(|r| r.start + (r.end - r.start) / 2.0).unwrap_or(0.0);
+                if x.first().map_or(false, |v| *v > mid) {
+                    f64::INFINITY
+                } else {
+                    x.iter().map(|v| v * v).sum::<f64>()
+                }
+            }
         };
         if v.is_nan() || v == f64::NEG_INFINITY {
             f64::INFINITY
